@@ -218,7 +218,15 @@ def gen_workload(rng, profile=None, kinds=('dna', 'rna', 'protein'), weights=Non
             shape = rng.choice(['star', 'balanced', 'caterpillar'])      # related sequences: 'random' would make lengths up to 1.5 L
     else:  # dups
         n, L = rng.randint(3, 30), rng.randint(5, 150)
+    if n > 150 and shape == 'caterpillar':
+        # hundreds of accumulated indel steps make the members unrelated and the alignment tens of thousands of
+        # columns wide (47 MB of Clustal output for 72-residue sequences): keep the chain substitution-only
+        pindel = 0.0
     seqs = family(rng, alpha, n, L, shape, psub, pindel)
+    if profile in ('many', 'seqcap', 'kmeans', 'manylines'):
+        # hundreds of sequences are meant to be short: a caterpillar family of 600 steps would otherwise drift to
+        # 1000 residues through accumulated insertions (minutes per run)
+        seqs = [x[:4 * L + 8] for x in seqs]
     if profile == 'ratio':
         for _ in range(rng.randint(1, 2)):
             seqs[rng.randrange(n)] = rand_seq(rng, alpha, rng.randint(1, 4))
